@@ -143,6 +143,12 @@ theorem wOnSetup_sum (s : WSess) (r : Req) (e : Env)
               have hst : (wToReady { s with tr := tr }).status = (wToReady s).status := by simp [wToReady_status]
               exact ⟨rfl, tf.1, tf.2.1, tf.2.2.1, tf.2.2.2.1, tf.2.2.2.2, by simp [mkResp], Or.inl ⟨rfl, hd', hst, ask1⟩⟩
 
+theorem wOnSetup_attached (s : WSess) (r : Req) (e : Env) :
+    (wOnSetup s r e (mkResp r)).1.attached = s.attached := by
+  unfold wOnSetup
+  have tf := fun t : WSess => (wToReady_fields t).1
+  crushBy (simp [tf])
+
 theorem wOnPlay_sum (s : WSess) (r : Req) (e : Env) :
     ∃ x, respsOf (wOnPlay s r e (mkResp r)).2 = [x] ∧ x.cseq = r.cseq ∧
       (wOnPlay s r e (mkResp r)).1.closed = s.closed ∧ (wOnPlay s r e (mkResp r)).1.described = s.described ∧
@@ -392,19 +398,109 @@ theorem wstepInput_sim (gate : Status → Method → Bool) (hG : gateEq gate ref
       rw [mstep_hangup _ _ _ (wabsPhase_open s hc') rfl hfc hf0 rfl]
       simp [wmstateOf, wabsPhase, hfc, hf0]
 
+/-- a WSP session that is attached to a stream is in the playing phase -/
+theorem wattached_playing (s : WSess) (hinv : WInv s) (h : s.attached = true) : (wmstateOf s).phase = .playing := by
+  cases hc : s.closed with
+  | true => rw [hinv.closedClean hc] at h; cases h
+  | false =>
+    cases hs : s.status with
+    | init => rw [hinv.idle hc (Or.inl hs)] at h; cases h
+    | ready => rw [hinv.idle hc (Or.inr hs)] at h; cases h
+    | playing => simp [wmstateOf, wabsPhase, hc, hs]
+    | recording => exact absurd hs hinv.noRecording
+
+/-- the consumer is attached only by a PLAY that is answered 200 -/
+theorem wstep_attach (gate : Status → Method → Bool) (s : WSess) (r : Req) (e : Env) (ha : s.attached = false)
+    (h : (wstep gate s r e).1.attached = true) :
+    r.method = .play ∧ ∃ x, respsOf (wstep gate s r e).2 = [x] ∧ x.code = 200 := by
+  unfold wstep at h ⊢
+  by_cases hc : s.closed = true
+  · simp [hc, ha] at h
+  · have hc' : s.closed = false := by simpa using hc
+    simp only [hc', Bool.false_eq_true, ↓reduceIte] at h ⊢
+    by_cases hopt : r.method = .options
+    · simp [hopt, ha] at h
+    · have hopt' : (r.method == Method.options) = false := by simpa using hopt
+      simp only [hopt', Bool.false_eq_true, ↓reduceIte] at h ⊢
+      by_cases htd : r.method = .teardown
+      · simp [htd, wFinish] at h
+      · have htd' : (r.method == Method.teardown) = false := by simpa using htd
+        simp only [htd', Bool.false_eq_true, ↓reduceIte] at h ⊢
+        by_cases hg : gate s.status r.method = true
+        · simp only [hg, Bool.not_true, Bool.false_eq_true, ↓reduceIte] at h ⊢
+          cases hm : r.method with
+          | play =>
+            simp only [hm] at h ⊢
+            obtain ⟨x, hx, _, _, _, _, _, _, hcase⟩ := wOnPlay_sum s r e
+            refine ⟨trivial, x, hx, ?_⟩
+            rcases hcase with ⟨h200, _⟩ | ⟨_, hsame⟩
+            · exact h200
+            · rw [hsame, ha] at h; cases h
+          | describe =>
+            simp only [hm] at h
+            rw [(wOnDescribe_sum s r e).2.2.1, ha] at h; cases h
+          | setup =>
+            simp only [hm] at h
+            have := wOnSetup_attached s r e
+            rw [this, ha] at h; cases h
+          | pause =>
+            simp only [hm] at h
+            split at h <;> simp [ha] at h
+          | options => exact absurd hm hopt
+          | teardown => exact absurd hm htd
+          | announce => simp [hm, ha] at h
+          | getParameter => simp [hm, ha] at h
+          | setParameter => simp [hm, ha] at h
+          | record => simp [hm, ha] at h
+          | redirect => simp [hm, ha] at h
+          | other => simp [hm, ha] at h
+        · have hg' : gate s.status r.method = false := by simpa using hg
+          simp [hg', ha] at h
+
+/-- the media clause of the automaton holds for every WSP step of the model -/
+theorem wmedia_ok (gate : Status → Method → Bool) (hG : gateEq gate refWspGate = true) (s : WSess) (i : Input)
+    (hinv : WInv s) :
+    mediaOk .wsp (wmstateOf s)
+      { obsOf i (wstepInput gate s i).2 (wstepInput gate s i).1.consumers false (wstepInput gate s i).1.closed with
+        sidOk := true, media := s.attached || (wstepInput gate s i).1.attached } = true := by
+  cases ha : s.attached with
+  | true => simp [mediaOk, wattached_playing s hinv ha]
+  | false =>
+    cases ha' : (wstepInput gate s i).1.attached with
+    | false => simp [mediaOk]
+    | true =>
+      cases i with
+      | hangup =>
+        exfalso
+        simp only [wstepInput, wdisconnect] at ha'
+        split at ha'
+        · rw [ha] at ha'; cases ha'
+        · simp [wFinish] at ha'
+      | req r e =>
+        obtain ⟨hm, x, hx, h200⟩ := wstep_attach gate s r e ha ha'
+        simp only [wstepInput] at hx ⊢
+        simp [mediaOk, obsOf, hm, hx, h200]
+
 def wfinal (gate : Status → Method → Bool) : WSess → List Input → WSess
   | s, [] => s
   | s, i :: is => wfinal gate (wstepInput gate s i).1 is
 
 theorem wtrace_mrun (gate : Status → Method → Bool) (hG : gateEq gate refWspGate = true) (ins : List Input) (s : WSess)
     (hinv : WInv s) :
-    mrun .wsp (wmstateOf s) (wtrace gate s ins) = .ok (wmstateOf (wfinal gate s ins)) := by
+    mrun .wsp (wmstateOf s) (wtrace gate true s ins) = .ok (wmstateOf (wfinal gate s ins)) := by
   induction ins generalizing s with
   | nil => rfl
   | cons i is ih =>
     obtain ⟨hi, hm⟩ := wstepInput_sim gate hG s i hinv
     simp only [wtrace, wfinal, mrun]
-    rw [hm]
+    have hmedia := wmedia_ok gate hG s i hinv
+    have hsid : ({ obsOf i (wstepInput gate s i).2 (wstepInput gate s i).1.consumers false (wstepInput gate s i).1.closed with
+          sidOk := true, media := s.attached || (wstepInput gate s i).1.attached } : Obs) =
+        { obsOf i (wstepInput gate s i).2 (wstepInput gate s i).1.consumers false (wstepInput gate s i).1.closed with
+          media := s.attached || (wstepInput gate s i).1.attached } := by
+      rw [← obsOf_sid i (wstepInput gate s i).2 (wstepInput gate s i).1.consumers false (wstepInput gate s i).1.closed]
+    simp only [mguard, hmedia, Bool.not_true, Bool.false_eq_true, ↓reduceIte]
+    rw [hsid, mstep_media, hm]
     exact ih _ hi
 
 end IpcHub.Rtsp
